@@ -12,7 +12,7 @@ TEXT = {
  "C02": "theorems: flushing writes exactly one directory block, changes only the 32 bytes of the file's slot, and the slot then decodes to the flushed entry (name, attributes, size, cluster, times); other slots preserved. Correspondence + oracle: histories with remount at quiescent points; the independent Lean FAT reader's dump of the crate's medium is compared entry for entry with a reference tree; a fresh VolumeManager reads everything back. Whole-history persistence is partial (tested, not proved)",
  "C03": "theorems: allocation only ever returns a free cluster inside the volume, never a slack or reserved entry; create uses the first free slot and never writes past an end marker; new directories get correct dot entries; truncation keeps and terminates the first cluster. The global fsck invariant over histories is NOT proved (partial): the Lean fsck runs on the crate's medium after every single call of generated histories incl. full volumes and full FAT16 roots",
  "C04": "theorems: under the geometry hypothesis established by mounting, FAT entries of the volume's clusters lie in the FAT region, data-cluster blocks in the data region, disjoint from boot sector, info sector, block 0, other clusters; each primitive writes only the blocks it names; slot and FAT-entry writes preserve all other bytes (FAT32 top nibble kept). Composition over whole calls is partial: every write of every call in generated histories is checked by the region/frame oracle",
- "C05": "theorems: the free-cluster search is sound and complete (returns a free in-range cluster iff one exists in the range; never a slack entry), allocation succeeds iff the volume has a free cluster (the last one included) and fails with NotEnoughSpace without writing otherwise. The leak-freedom invariant over histories is partial: at every quiescent point of generated histories (volumes driven to exactly full and back) the Lean spec compares used clusters with the union of chains",
+ "C05": "theorems: the free-cluster search is sound and complete (never a slack entry), allocation succeeds iff the volume has a free cluster (the last one included) and fails with NotEnoughSpace without writing otherwise; truncation / deletion free exactly the chain (tail) and change no other FAT entry; the forest invariant (every used cluster belongs to exactly one chain of a live root; chains pairwise disjoint) and the exactness of a known free count are preserved by EVERY history of FAT-engine operations (new chain, extend, truncate, free) on every volume - no_leak, no_sharing, count_history (Props/C05Forest.lean; fault-free runs). Partial: that each API call is such a sequence of engine operations and that roots = directory entries is checked, not proved: at every quiescent point of generated histories (volumes driven to exactly full and back) the Lean spec compares used clusters with the union of chains",
  "C06": "theorems: a directory block is 16 slots; listing a block / a run of blocks / the FAT16 root / any chained directory yields exactly the live slots up to the end marker, decoded per the FAT layout, in order; lookup returns the first matching non-fragment slot; lookup = find in the listing under the clean-tail hypothesis; create picks the first free slot; iterate_dir hides long-name fragments; open_dir follows the entry (cluster 0 = root). Correspondence: listings, lookups, open_dir on formatter-built directories before and after histories",
  "C07": "theorems: the complete decision table of open_file_in_dir parametrised by the lookup outcome (six modes x missing / file / read-only / directory / already open), solve_mode_variant, read-only handles reject writes, delete / mkdir / open_dir guards, refused calls leave the state as the lookup left it and the lookup never writes. Correspondence: the mode matrix at random points of random histories",
  "C08": "theorems (all histories without counter wrap, all limit configurations): handle tables stay duplicate-free and below the generator, fresh handles are new, bad handles are rejected with no effect, limits are exact, closing frees exactly one slot, volume guards, has_open_handles tells the truth, every Result-returning call under the lock answers LockError and changes nothing. Correspondence: 14 limit configurations, stale/bogus handles, re-entrant calls from both iteration callbacks",
